@@ -52,6 +52,7 @@ INV = [
     ("I4-helper-while-handshaken", "implies(self._handshake_complete, self._frame_helper is not None)", ["C09"]),
     ("I4-timers-only-while-handshaken", "implies(self._ping_timer is not None or self._pong_timer is not None, self._handshake_complete)", ["C08"]),
     ("I4-init-has-nothing", f"implies({S} is CS.INITIALIZED, self._socket is None and self._frame_helper is None)", ["C05"]),
+    ("I7-attached-helper-is-open", "implies(self._frame_helper is not None, not closed(self._frame_helper))", ["C08"]),
     ("I5-graceful-marker", "iff(ghost.graceful, self._expected_disconnect)", ["C07"]),
     ("I6-keepalive-positive", "self._keep_alive_timeout == self._keep_alive_interval * 4.5", ["C10"]),
 ]
@@ -103,13 +104,19 @@ def step_clauses(kind="auxiliary"):
     return [(n, step_text(t), kind) for n, t, _ in STEP]
 
 
+def loop_inv_step():
+    """Inv and Step(segment start, now) as loop invariants of a loop whose body contains cut points (sound because
+    Step is reflexive and transitive - lemma target `step-is-a-preorder`)."""
+    return [(n, t) for n, t, _ in INV] + [(n, step_text(t, "seg")) for n, t, _ in STEP]
+
+
 def inv_step_ensures():
     """What every contracted method of the connection guarantees to its callers: Inv and Step(pre, post)."""
     return [(n, t, "auxiliary") for n, t, _ in INV] + [(n, step_text(t), "auxiliary") for n, t, _ in STEP]
 
 
 def all_mods():
-    return [f"self.{f}" for f in MUT_FIELDS] + [f"region:{r}" for r in REGIONS] + [f"ghost.{g}" for g in GHOST if g != "now"] + ["hmap:self._message_handlers"]
+    return [f"self.{f}" for f in MUT_FIELDS] + [f"region:{r}" for r in REGIONS] + [f"ghost.{g}" for g in GHOST if g != "now"]
 
 
 # ------------------------------------------------------------------------------------------------------------
@@ -238,6 +245,38 @@ def install(eng, check_tags=None):
         e = v.e if isinstance(v, VSetVal) else st.heap[v.oid].f["e"]
         return ok(st, VSeq(enum_f(e), parse_ty("obj")))
 
+    pred_f = z3.Function("accepts", ObjS, ObjS, BoolS)      # a user predicate applied to a message (A-PRED: pure)
+
+    @bfn("accepts")
+    def _accepts(eng_, st, args, kwargs):
+        return ok(st, VBool(pred_f(box(eng_, st, args[0]), box(eng_, st, args[1]))))
+
+    def pred_call(eng_, st, fv, args, kwargs):
+        eng_.assumptions_used.add("A-PRED: the accept/stop predicates of a request-response call are pure functions of the message")
+        return ok(st, VBool(pred_f(box(eng_, st, fv), box(eng_, st, args[0]))))
+    eng.callout_models["Pred"] = pred_call
+
+    @bfn("has_entry")
+    def _has_entry(eng_, st, args, kwargs):
+        hm = st.heap[st.heap[args[0].oid].f["_message_handlers"].oid]
+        return ok(st, VBool(z3.Select(hm.f["has"], class_key(eng_, st, args[1]))))
+
+    @bfn("is_remover")
+    def _is_remover(eng_, st, args, kwargs):
+        """is_remover(f, conn, cb, types): f is partial(conn._remove_message_callback, cb, types)."""
+        f, conn, cb, types = args
+        okk = (isinstance(f, VFunc) and f.kind == "partial" and isinstance(f.func, VFunc) and f.func.kind == "bound"
+               and getattr(f.func.func, "qualname", "") == "APIConnection._remove_message_callback"
+               and isinstance(f.func.selfv, VRef) and f.func.selfv.oid == conn.oid and len(f.args) == 2 and not f.kwargs)
+        if not okk:
+            return ok(st, VBool(False))
+        same_cb = box(eng_, st, f.args[0]) == box(eng_, st, cb)
+        a_t, b_t = f.args[1], types
+        if not (isinstance(a_t, VTuple) and isinstance(b_t, VTuple) and len(a_t.items) == len(b_t.items)):
+            return ok(st, VBool(False))
+        same_t = z3.And(*[class_key(eng_, st, x) == class_key(eng_, st, y) for x, y in zip(a_t.items, b_t.items)] or [z3.BoolVal(True)])
+        return ok(st, VBool(simp(z3.And(same_cb, same_t))))
+
     @bfn("setiter_distinct")
     def _setiter_distinct(eng_, st, args, kwargs):
         """Axiom instance of A-SETITER: the enumeration of a set has no duplicates (positions i != j)."""
@@ -329,10 +368,16 @@ def install(eng, check_tags=None):
 
     @bfn("class_of")
     def _class_of(eng_, st, args, kwargs):
+        def one(v):
+            if isinstance(v, VNoneT):
+                return VClass(type(None))
+            if isinstance(v, VRef):
+                return VClass(st.heap[v.oid].cls)
+            return VFunc("typeof", obj=v)
         v = args[0]
-        if isinstance(v, VRef):
-            return ok(st, VClass(st.heap[v.oid].cls))
-        return ok(st, VFunc("typeof", obj=v))
+        if isinstance(v, VUnion):
+            return ok(st, VUnion([(g, one(a)) for g, a in v.alts]))
+        return ok(st, one(v))
 
     @bfn("same_class")
     def _same_class(eng_, st, args, kwargs):
@@ -391,7 +436,7 @@ def install(eng, check_tags=None):
         g, og = st.heap[st.ghost_oid], old.heap[old.ghost_oid]
         for k in GHOST:
             a, b = g.f[k], og.f[k]
-            conj.append(a.e == b.e)
+            conj.append(same_value(a, b) if not isinstance(a, VSeq) else a.e == b.e)
         return [(st, VBool(simp(z3.And(*conj))))]
     eng.builtin_mod.SPECIAL_FORMS["conn_unchanged"] = sf_conn_unchanged
 
@@ -400,7 +445,7 @@ def install(eng, check_tags=None):
     wall = z3.Real("wallclock")
 
     def b_time(eng_, st, args, kwargs):
-        st.fact(z3.And(wall >= 0, wall < 2 ** 62))
+        st.fact(z3.And(wall >= 0, wall < 2 ** 32))      # A-CLOCK: the wall clock fits the fixed32 field (until 2106)
         return ok(st, VReal(wall))
     eng.builtins[id(_time.time)] = b_time
     names["wallclock"] = VReal(wall)
@@ -579,6 +624,8 @@ def install(eng, check_tags=None):
     prev_fresh = eng.hooks.get("fresh")
 
     def h_fresh(eng_, st, ty, name):
+        if ty.head == "cls":
+            return VFunc("symcls", code=z3.Int(fresh_name(name + ".code")), name=name)
         if ty.head == "hmap":
             return VRef(st.alloc(HObj("hmap", None, {"has": z3.Const(fresh_name(name + ".has"), z3.ArraySort(IntS, BoolS)),
                                                       "sets": z3.Const(fresh_name(name + ".sets"), z3.ArraySort(IntS, ObjSetS))})))
@@ -685,6 +732,16 @@ def install(eng, check_tags=None):
             o.f["has"] = z3.Const(fresh_name("handlers.has"), z3.ArraySort(IntS, BoolS))
             o.f["sets"] = z3.Const(fresh_name("handlers.sets"), z3.ArraySort(IntS, ObjSetS))
             return
+        if text in ("self._read_exception_futures", "self._message_handlers"):
+            # identity of the container objects never changes: havoc their contents in place
+            r = eng_.ev(_parse_expr(text), st)
+            o = st.heap[r[0][1].oid]
+            if o.kind == "sset":
+                o.f["e"] = z3.Const(fresh_name("waiters"), ObjSetS)
+            else:
+                o.f["has"] = z3.Const(fresh_name("handlers.has"), z3.ArraySort(IntS, BoolS))
+                o.f["sets"] = z3.Const(fresh_name("handlers.sets"), z3.ArraySort(IntS, ObjSetS))
+            return
         if text.startswith("set:"):
             r = eng_.ev(_parse_expr(text[4:]), st)
             o = st.heap[r[0][1].oid]
@@ -697,7 +754,7 @@ def install(eng, check_tags=None):
     def callback_call(eng_, st, fv, args, kwargs):
         ghost_append(eng_, st, "dispatched", VTuple([fv, args[0]]))
         selfref = find_conn(st)
-        cut(eng_, st, selfref, "handler-call", check=True)
+        cut(eng_, st, selfref, "handler-call", check=True, reentrant_only=True)
         s_exc = st.clone()
         s_exc.note("handler!raises")
         return [(st, VNone), (s_exc, Raised(eng_.fresh_exception(s_exc, Exception)))]
@@ -709,7 +766,7 @@ def install(eng, check_tags=None):
         g.f["stop_arg"] = VBool(truth(args[0], st))
         st.events = st.events + [("on_stop", truth(args[0], st))]
         selfref = find_conn(st)
-        cut(eng_, st, selfref, "on_stop-call", check=True)
+        cut(eng_, st, selfref, "on_stop-call", check=True, reentrant_only=True)
         return ok(st, VNone)
     eng.callout_models["OnStop"] = onstop_call
 
@@ -758,6 +815,11 @@ def same_value(a, b):
 
 
 def class_key(eng, st, v):
+    if isinstance(v, VUnion):
+        e = class_key(eng, st, v.alts[-1][1])
+        for g, a in reversed(v.alts[:-1]):
+            e = z3.If(g, class_key(eng, st, a), e)
+        return e
     if isinstance(v, VClass):
         return z3.IntVal(cls_code(v.py))
     if isinstance(v, VFunc) and v.kind == "typeof":
@@ -836,7 +898,7 @@ def tracked_objs(st):
     return list(out.values())
 
 
-def havoc_world(eng, st, selfref):
+def havoc_world(eng, st, selfref, reentrant_only=False):
     """Everything any other task, timer, transport callback or re-entrant callback may do: all mutable fields,
     regions, handler table and ghost state become arbitrary, constrained by Step(before, after) and Inv(after)."""
     pre = st.clone()
@@ -859,6 +921,8 @@ def havoc_world(eng, st, selfref):
         st.regions[r] = z3.Const(fresh_name("R_" + r), z3.ArraySort(ObjS, sort))
     g = st.heap[st.ghost_oid]
     for k, ty in GHOST.items():
+        if reentrant_only and k in ("dispatched", "now"):
+            continue        # A-CALLBACK: a callback may re-enter the public API but does not feed packets or let time pass
         if k == "dispatched":
             cur = g.f[k]
             ext = z3.Const(fresh_name("dispatched_by_others"), cur.e.sort())
@@ -896,10 +960,11 @@ def havoc_world(eng, st, selfref):
     st.labels["seg"].labels = {}
 
 
-def cut(eng, st, selfref, why, check=True):
+def cut(eng, st, selfref, why, check=True, reentrant_only=False):
     if check:
         check_inv_step(eng, st, selfref, why)
-    havoc_world(eng, st, selfref)
+    havoc_world(eng, st, selfref, reentrant_only)
+    st.events = st.events + [("cut", why)]
     st.note(f"cut:{why}")
 
 
@@ -908,6 +973,7 @@ def entry_setup(eng, st):
     selfref = st.env.f["self"]
     for r in REGIONS:
         region(eng, st, r)
+    st.fact(enum_f(z3.EmptySet(ObjS)) == z3.Empty(ObjSeqS))      # A-SETITER: iterating the empty set visits nothing
     for name, txt, _ in INV:
         st.assume(eval_clause(eng, st, _parse_expr(txt), {"self": selfref}))
     st.labels = dict(st.labels)
